@@ -281,6 +281,22 @@ def drain (pick : Nat → Nat × Bool) : Nat → St → St
     else drain (fun k => pick (k + 1)) n
       (next s (.complete ((pick 0).1 % s.outstanding.length) (pick 0).2))
 
+/-! ghost for C11: `context.git_rev` changes in the `_reload` background step; `FSM.load`
+    (`farm.notify_all(); farm.clear()` before deferring `_pipeline`) is the start of a `Step.load` -/
+
+/-- the event is the completion of an outstanding `reload` step (its body `_reload` has run) -/
+def isReloadCompletion (s : St) : Event → Bool
+  | .complete i _ => s.outstanding[i]? = some .reload
+  | _ => false
+
+/-- `needsLoad`: a `reload` step has completed and no `load` has been started since -/
+def ghostStep (g : Bool) (s : St) (e : Event) : Bool :=
+  if Step.load ∈ (step s e).2.1.started then false else (g || isReloadCompletion s e)
+
+def ghostRun (g : Bool) (s : St) : List Event → Bool × St
+  | [] => (g, s)
+  | e :: es => ghostRun (ghostStep g s e) (next s e) es
+
 /-- the full-strength statement of `returns_to_rest`: some bound on the number of completions
     works for every completion order -/
 def ReturnsToRest (s : St) : Prop := ∃ n, ∀ pick, (drain pick n s).atRest = true
